@@ -462,6 +462,7 @@ def run(ctx):
     check_derived_names(ctx, repo)
     check_writer_exit(ctx, repo)
     check_write_path_handlers(ctx, repo)
+    check_exit_methods(ctx, repo)
 
 
 def check_derived_names(ctx, repo):
@@ -611,6 +612,65 @@ def check_write_path_handlers(ctx, repo):
                             f"found")
 
 
+def check_exit_methods(ctx, repo):
+    """No context manager of the library suppresses exceptions: the tasks
+    hold datasets and writers in `with` blocks; an `__exit__` that returns a
+    true value swallows the I/O error raised inside the block, the task
+    carries on and renames an incomplete file."""
+    # which methods of the package can return a value
+    returning = {}
+    exits = []
+    for rel in sorted(repo.files("dclab/")):
+        try:
+            fns = list(repo.all_functions(rel))
+        except AnalysisError:
+            continue
+        for q, f in fns:
+            val = any(isinstance(n, ast.Return) and n.value is not None
+                      and not (isinstance(n.value, ast.Constant)
+                               and n.value.value in (None, False))
+                      for n in walk(f))
+            returning.setdefault(f.name, []).append((rel, q, val))
+            if f.name == "__exit__":
+                exits.append((rel, q, f))
+    if len(exits) < 2:
+        raise AnalysisError(f"only {len(exits)} __exit__ methods found")
+    for rel, q, f in exits:
+        bad = None
+        for n in walk(f):
+            if not isinstance(n, ast.Return) or n.value is None:
+                continue
+            v = n.value
+            if isinstance(v, ast.Constant):
+                if v.value:
+                    bad = (n, f"returns the true value {v.value!r}")
+                continue
+            if isinstance(v, ast.Call) and isinstance(
+                    v.func, ast.Attribute) and isinstance(
+                    v.func.value, ast.Name) and v.func.value.id == "self":
+                impls = [x for x in returning.get(v.func.attr, [])]
+                if not impls:
+                    raise AnalysisError(f"{q}: `{short(v, 40)}` cannot be "
+                                        f"resolved")
+                vals = [x for x in impls if x[2]]
+                if vals:
+                    bad = (n, f"returns `{short(v, 30)}`, and "
+                              f"{vals[0][1]} ({vals[0][0]}) returns a value")
+                continue
+            if isinstance(v, ast.Call) and "super" in txt(v.func) and \
+                    last_attr(v) == "__exit__":
+                continue
+            raise AnalysisError(f"{q}: return value `{short(v, 40)}` of "
+                                f"__exit__ cannot be classified")
+        ctx.ob("R10.6", bad is None,
+               f"{q} lets exceptions of the with-block propagate"
+               if bad is None else
+               f"{q} {bad[1]}: exceptions raised inside the with-block are "
+               f"suppressed – a failed write goes unnoticed and the task "
+               f"renames an incomplete file", node=bad[0] if bad else f,
+               key=f"{rel}::{q}::exit does not suppress")
+
+
 def check_writer_exit(ctx, repo):
     """The writer's context exit must let exceptions of its close-time
     writes propagate: no `return` inside `finally`, no truthy return."""
@@ -662,6 +722,22 @@ def check_setup(ctx, repo):
         if k and k[0] == "destroy":
             for role in roles.of(k[1][0]):
                 destroyed[role] = c
+    # every destructive call of the set-up concerns this task's own output
+    # or temporary path – nothing else in the directory (another task's
+    # temp file may be this task's input)
+    for c in [n for n in walk(func) if isinstance(n, ast.Call)]:
+        k = classify(c)
+        if k and k[0] == "destroy":
+            rl = roles.of(k[1][0])
+            ok = bool(rl) and rl <= {"OUT", "TEMP"}
+            ctx.ob("R10.3", ok,
+                   f"`{short(c, 40)}` removes the task's own "
+                   f"{'/'.join(sorted(x.lower() for x in rl))} path" if ok
+                   else f"`{short(c, 50)}` removes a path that is neither "
+                   f"the task's output nor its temporary file (role "
+                   f"{sorted(rl) or 'unknown'}): files of other runs – "
+                   f"possibly this task's input – are deleted", node=c,
+                   label=f"destroys own paths only {short(c, 30)}")
     for role in ("OUT", "TEMP"):
         c = destroyed[role]
         ctx.ob("R10.3", c is not None,
@@ -796,6 +872,18 @@ def check_setup(ctx, repo):
 
 
 MUTANTS = [
+    ("set-up removes every temp file of the directory (seeded C10_10)",
+     "dclab/cli/common.py",
+     ("    [pt.unlink() for pt in paths_temp if pt.exists()]\n",
+      "    [pt.unlink() for pt in paths_temp if pt.exists()]\n"
+      "    for pdir in set(po.parent for po in paths_out):\n"
+      "        for pstale in pdir.glob(\"*.rtdc~\"):\n"
+      "            pstale.unlink()\n"), "R10.3"),
+    ("dataset __exit__ returns what close() returns (seeded C10_11)",
+     "dclab/rtdc_dataset/core.py",
+     ("    def __exit__(self, type, value, tb):\n        self.close()\n",
+      "    def __exit__(self, type, value, tb):\n        return True\n"),
+     "R10.6"),
     ("chunk copy swallows write errors (seeded C10_9)",
      "dclab/rtdc_dataset/copier.py",
      ("                    dst[chunk] = src[chunk]\n",
